@@ -109,8 +109,16 @@ pub fn window(s: &S) -> WindowStatement {
                     "range" => FrameType::Range,
                     _ => panic!("frametype"),
                 };
+                // frame_start / frame_between, or the general frame() for part of the cases
+                let general = exprs::shash(c) % 2 == 1;
                 if l.len() > 2 {
-                    w.frame_between(ft, frame(&l[1]), frame(&l[2]));
+                    if general {
+                        w.frame(ft, frame(&l[1]), Some(frame(&l[2])));
+                    } else {
+                        w.frame_between(ft, frame(&l[1]), frame(&l[2]));
+                    }
+                } else if general {
+                    w.frame(ft, frame(&l[1]), None);
                 } else {
                     w.frame_start(ft, frame(&l[1]));
                 }
